@@ -631,7 +631,9 @@ Definition request_melt_quote (cfg : config) (unit_ok decodes : bool) (req h msa
   : prog (result lquote) :=
   if negb unit_ok then fail EUnit else
   if negb decodes then fail EInvoice else
-  if msat =? 0 then fail EInvoice else
+  (* the decoder reports the amount as an int64 (the harness passes it on as the uint64 of the same bits): 0 = no amount,
+     2^63 and above = a negative number, an amount that does not fit *)
+  if (msat <=? 0) || (two63 <=? msat) then fail EInvoice else
   let invoice_sat := (msat + 999) / 1000 in
   call mq <- GetMintQuoteByHash h ;;
   let internal := match same_invoice mq req with Some _ => true | None => false end in
